@@ -145,7 +145,7 @@ def direct_rdm(data, events, method):
     return np.array(out)
 
 
-def run_rdms(ctx, chunked, dtype='float'):
+def run_rdms(ctx, chunked, dtype='float', caller_order=None):
     rng = ctx.rng
     if chunked:
         shape, radius, thr = (11, 11, 11), 1.5, 0.4
@@ -158,6 +158,13 @@ def run_rdms(ctx, chunked, dtype='float'):
     except Exception:
         ctx.count('rejected_no_centre')
         return
+    center_order = 'ascending'
+    if (rng.integers(2) if caller_order is None else caller_order):
+        # the caller's own order of centres (two hemispheres concatenated, a region-wise list): results follow that order
+        perm = rng.permutation(len(centers))
+        centers = np.asarray(centers)[perm]
+        neighbors = [neighbors[int(i)] for i in perm]
+        center_order = 'caller'
     n_cond = int(rng.integers(3, 6))
     reps = int(rng.integers(1, 4))
     events = np.array([c for _ in range(reps) for c in rng.permutation(n_cond)])
@@ -169,7 +176,7 @@ def run_rdms(ctx, chunked, dtype='float'):
     method = gen.pick(rng, ['correlation', 'euclidean'])
     check = 'rdm_chunked' if chunked else 'rdm_small'
     sig = dict(what=check, method=method, chunked=chunked, n_centers='>1000' if len(centers) > 1000 else '<=1000',
-               dtype=dtype)
+               dtype=dtype, center_order=center_order)
     wit = lambda **k: dict(shape=shape, radius=radius, threshold=thr, events=events, method=method,  # noqa: E731
                            n_centers=len(centers), **k)
     if chunked and len(centers) <= 1000:
@@ -211,7 +218,7 @@ def slow_eval(models, x, method='corr', theta=None):
     return dict(voxel=vox, value=val, pid=os.getpid(), start=t0, end=time.monotonic())
 
 
-def run_schedules(ctx, weighted=False):
+def run_schedules(ctx, weighted=False, reorder=False):
     from rsatoolbox.model import ModelFixed
     rng = ctx.rng
     n = int(rng.integers(10, 17))
@@ -232,6 +239,16 @@ def run_schedules(ctx, weighted=False):
     for attempt, scale in enumerate((0.004, 0.012, 0.03)):
         delays = [scale * (n - i) for i in range(n)]       # later centres finish first
         sl = RDMs(vecs.copy(), rdm_descriptors={'voxel_index': vox, 'delay': delays})
+        if attempt == 0 and reorder:
+            # the searchlight RDMs are a selection in the caller's order (a region of interest picked out of a whole-brain
+            # result): the library-managed 'index' then no longer counts 0..n-1; results follow the order of the object
+            order = [int(i) for i in rng.permutation(n)]
+            sl = sl.subsample('voxel_index', [vox[i] for i in order])
+            vox = [vox[i] for i in order]
+            vecs = vecs[order]
+            if direct is not None:
+                direct = [direct[i] for i in order]
+            ctx.count('searchlight_rdms_reordered_by_caller')
         base = None
         for n_jobs in (1, 2, 4):
             sig = dict(what='parallel_order', n_jobs=n_jobs)
@@ -276,10 +293,10 @@ def run(ctx):
     for it in range(ctx.n(4, 20)):
         run_rdms(ctx, False, dtype='int')
     if ctx.shard == 0:
-        run_rdms(ctx, True, dtype=gen.pick(ctx.rng, ['float', 'int']))
-        run_rdms(ctx, True, dtype='int')
-        run_schedules(ctx, weighted=False)
-        run_schedules(ctx, weighted=True)
+        run_rdms(ctx, True, dtype=gen.pick(ctx.rng, ['float', 'int']), caller_order=False)
+        run_rdms(ctx, True, dtype='int', caller_order=True)
+        run_schedules(ctx, weighted=False, reorder=True)
+        run_schedules(ctx, weighted=True, reorder=False)
     else:
         ctx.count('check:rdm_chunked')
         ctx.count('check:parallel_order')
